@@ -482,8 +482,10 @@ fn anomalies_since(mark: usize) -> Vec<String> {
 
 fn describe(ps: &BTreeSet<BlockId>) -> String {
     let l = ledger();
-    let v: Vec<String> = ps.iter().take(6).map(|p| format!("{:#x}({}B)", p.0, l.live.get(&p.0).map_or(0, |b| b.size))).collect();
-    format!("{} block(s): {}", ps.len(), v.join(" "))
+    let mut v: Vec<usize> = ps.iter().map(|p| l.live.get(&p.0).map_or(0, |b| b.size)).collect();
+    v.sort();
+    let v: Vec<String> = v.iter().take(8).map(|x| x.to_string()).collect();
+    format!("{} block(s) of {} bytes", ps.len(), v.join("/"))
 }
 
 static mut ANOMALY_MARK: usize = 0;
